@@ -1,6 +1,7 @@
 package main
 
 import (
+	"fmt"
 	"go/token"
 	"strings"
 
@@ -10,7 +11,7 @@ import (
 func init() { register("C21", propC21) }
 
 func propC21(c *Check) {
-	c.Explain = "Decides the crash-atomicity structure of the consensus marker: the property needs either (a) the CONSENSUSSNAPSHOT record to be written in the same Badger transaction that finalises the snapshot (co-location in WriteSnapshot's effect set), or (b) a start-up repair that replays every consensus-class snapshot after the last marker (reloadConsensusState called inside a loop fed by a topology scan). Also decided: (c) SetupNode still repairs from LastSnapshot() when it holds a single transaction; (d) on every live finalisation path, AddSnapshot / finalizeNodeAcceptSnapshot of a single-transaction snapshot is followed on all non-panicking paths by reloadConsensusState (the only skip is the multi-transaction, i.e. batchable, case); (e) WriteConsensusSnapshot is a single write transaction and the marker family has one writer. TODAY'S TREE: neither (a) nor (b) holds — the marker is committed by a separate transaction after WriteSnapshot, the store mutex is released in between, and SetupNode repairs only the very last snapshot — reported as a KNOWN FINDING."
+	c.Explain = "Decides the crash-atomicity structure of the consensus marker: the property needs either (a) the CONSENSUSSNAPSHOT record to be written in the same Badger transaction that finalises the snapshot (co-location in WriteSnapshot's effect set), or (b) a start-up repair that replays every consensus-class snapshot after the last marker (reloadConsensusState called inside a loop fed by a topology scan). Also decided: (c) SetupNode still repairs from LastSnapshot() when it holds a single transaction; (d) on every live finalisation path, AddSnapshot / finalizeNodeAcceptSnapshot of a single-transaction snapshot is followed on all non-panicking paths by reloadConsensusState (the only skip is the multi-transaction, i.e. batchable, case); (e) WriteConsensusSnapshot is a single write transaction and the marker family has one writer; (f) inside reloadConsensusState, once the transaction type is recognised as one of the seven consensus classes (mint, pledge, cancel, accept, remove, custodian update, custodian slash) no return is reachable without the marker write. TODAY'S TREE: neither (a) nor (b) holds — the marker is committed by a separate transaction after WriteSnapshot, the store mutex is released in between, and SetupNode repairs only the very last snapshot — reported as a KNOWN FINDING."
 	c.NotCov = "crash points themselves (no execution); Badger durability. Clauses (c)-(e) are necessary conditions only."
 	c.Floor(7)
 	w := c.W
@@ -95,6 +96,37 @@ func propC21(c *Check) {
 			}
 		}
 		c.Require(ok && len(bad) == 0, "postgate", n+"|finalised => marker refreshed", "after AddSnapshot / finalizeNodeAcceptSnapshot every non-failing exit passes reloadConsensusState unless the snapshot holds more than one transaction", "exits without reload: "+strings.Join(bad, ", "))
+	}
+	// (f) reloadConsensusState refreshes the marker for every consensus-class transaction type:
+	// from the branch that recognises the type, no return is reachable without the marker write
+	// (start-up repair and live finalisation both rely on it; a silent skip leaves the marker stale)
+	if f := c.F("(*kernel.Node).reloadConsensusState"); f != nil {
+		wr := callBlocks(f, Call("(*kernel.Node).WriteConsensusSnapshotWithHack"))
+		cut := outEdges(f, wr)
+		tt := Call("(*common.SignedTransaction).TransactionType")
+		for _, k := range []string{"TransactionTypeMint", "TransactionTypeNodePledge", "TransactionTypeNodeCancel", "TransactionTypeNodeAccept", "TransactionTypeNodeRemove", "TransactionTypeCustodianUpdateNodes", "TransactionTypeCustodianSlashNodes"} {
+			n, bad := 0, ""
+			for _, iff := range findIfs(f, BinEither(token.EQL, tt, w.ConstNamed("common", k))) {
+				after := false
+				for bi := range wr {
+					if f.Blocks[bi].Dominates(iff.Block()) {
+						after = true // the later dispatch on the same type, past the write
+					}
+				}
+				if after {
+					continue
+				}
+				n++
+				for bi := range reachable(f, iff.Block().Succs[0], cut) {
+					b := f.Blocks[bi]
+					if r, isRet := b.Instrs[len(b.Instrs)-1].(*ssa.Return); isRet && !wr[bi] && b != f.Recover {
+						bad = instrPos(w, r)
+					}
+				}
+			}
+			c.Sites++
+			c.Require(n >= 1 && bad == "", "postgate", shortName(f)+"|"+k+" => marker written", "once the transaction type is recognised as "+k+", every return passes WriteConsensusSnapshotWithHack", fmt.Sprintf("type tests found: %d; return without the marker write at %q", n, bad), c.W.Pos(f.Pos()))
+		}
 	}
 	// (e) marker writer
 	c.WhoWrites(e, "graphPrefixConsensusSnapshot", []string{"set", "delete"}, []string{"storage.writeConsensusSnapshot"}, "single writer of the marker")
